@@ -2,7 +2,7 @@
    each generated method returns the model's statistic and leaves self in the model's next state (memo filled / idxs re-chunked),
    and a history of calls through the generated methods returns what fresh objects return. *)
 From Coq Require Import ZArith Bool List Lia.
-From PR Require Import Base.Num Base.ZX Base.ListX Base.Imp Model.Grid Model.Bucket Model.ImpBucket Gen.GenC07imp
+From PR Require Import Base.Num Base.ZX Base.ListX Base.Imp Model.Grid Model.Bucket Model.ImpBucket Gen.GenC07imp Model.C07_imp_run
      Proofs.C07_index Proofs.C07_hist Proofs.C07_history.
 Import ListNotations.
 Open Scope Z_scope.
@@ -428,3 +428,54 @@ Section ImpF.
       rewrite K'. cbn. rewrite S1. apply count_step_memo.
   Qed.
 End ImpF.
+
+(* ------------------------------------------------------------------ histories of calls through the generated methods *)
+Section ImpHistory.
+  Context {T : Type} (OP : ops T).
+
+  Lemma frac_memo_true size idxs data cat fill :
+    frac_memo OP size idxs data cat fill (bk_cells size (bk_count size idxs))
+    = bk_cells size (bk_get_fraction OP size idxs data cat fill).
+  Proof.
+    unfold frac_memo, bk_cells. rewrite combine_map_self, map_map. apply map_ext. intros k. reflexivity.
+  Qed.
+
+  Lemma rechunk_ok' size idxs lens o : obj_ok size idxs o -> obj_ok size idxs (bk_rechunk lens o).
+  Proof. apply rechunk_ok. Qed.
+
+  Lemma imp_step_ok size idxs o c : obj_ok size idxs o ->
+    exists o', imp_step OP o c = Some (o', imp_fresh OP size idxs c) /\ obj_ok size idxs o'.
+  Proof.
+    intros Ho. pose proof Ho as (Hs & Hc & Hm).
+    destruct c as [|data fill skipna ebv|data|data|data|data fill skipna|data cats fill]; cbn [imp_step imp_fresh].
+    - destruct (get_count_code o) as (st & E & S). rewrite E. cbn [ran]. destruct (count_step_ok size idxs o Ho) as [Ho1 E1].
+      rewrite S, E1. eexists. split; [reflexivity | exact Ho1].
+    - destruct (get_sum_code o data fill skipna ebv) as (st & E & S). rewrite E. cbn [ran]. rewrite S, Hs, Hc.
+      eexists. split; [reflexivity | apply rechunk_ok; exact Ho].
+    - destruct (get_min_code o data None true) as (st & E & S). rewrite E. cbn [ran]. rewrite S, Hs, Hc.
+      eexists. split; [reflexivity | apply rechunk_ok; exact Ho].
+    - destruct (get_max_code o data None true) as (st & E & S). rewrite E. cbn [ran]. rewrite S, Hs, Hc.
+      eexists. split; [reflexivity | apply rechunk_ok; exact Ho].
+    - destruct (get_abs_max_code o data None true) as (st & E & S). rewrite E. cbn [ran]. rewrite S, Hs, Hc.
+      eexists. split; [reflexivity | apply rechunk_ok; exact Ho].
+    - destruct (get_average_code OP o data fill skipna) as (st & E & S). rewrite E. cbn [ran]. rewrite S, Hs, Hc.
+      eexists. split; [reflexivity | apply rechunk_ok; exact Ho].
+    - destruct (get_fractions_code OP o data cats fill) as (st & E & Z1 & Q1 & K1). rewrite E. cbn [ran].
+      destruct (count_step_ok size idxs o Ho) as [_ E1]. rewrite E1, Hs, Hc in *.
+      eexists. split.
+      + f_equal. f_equal. f_equal. unfold frac_results. clear. generalize (@nil (Z * list (option T))).
+        induction cats as [|cat cats IH]; intros acc; [reflexivity|]. cbn [fold_left]. rewrite frac_memo_true. apply IH.
+      + unfold obj_ok. rewrite Z1, Q1, K1. auto.
+  Qed.
+
+  Lemma imp_run_fresh size idxs calls : forall o, obj_ok size idxs o ->
+    imp_run OP o calls = Some (map (imp_fresh OP size idxs) calls).
+  Proof.
+    induction calls as [|c calls IH]; intros o Ho; [reflexivity|]. cbn [imp_run map].
+    destruct (imp_step_ok size idxs o c Ho) as (o' & E & Ho'). rewrite E, (IH o' Ho'). reflexivity.
+  Qed.
+
+  Lemma imp_history_independent size (chunks0 : list (list Z)) calls :
+    imp_run OP (mk_obj size chunks0 None) calls = Some (map (imp_fresh OP size (concat chunks0)) calls).
+  Proof. apply imp_run_fresh. repeat split; cbn; auto. Qed.
+End ImpHistory.
